@@ -321,14 +321,34 @@ def run(tier, prop):
     violations, known_hits, seen = [], [], set()
     def coarse(f):
         return f.get("class", "violation") + "|" + re.sub(r"[0-9]+|'[^']*'|\"[^\"]*\"|\([^)]*\)", "#", f["what"])[:70]
+
+    def known_sig(f):
+        """Signature of the recorded finding that accounts for f, or None: a recorded finding never takes a slot from anything else."""
+        cls = f.get("class", "violation")
+        if cls.startswith("known:"):
+            return cls[6:] if any(x["signature"] == cls[6:] for x in known) else None
+        for x in known:
+            if x.get("match") and re.search(x["match"], f["what"]):
+                return x["signature"]
+        return None
+
+    fresh = [f for f in findings if known_sig(f) is None and not f.get("class", "").startswith("candidate:")]
+    recorded = [f for f in findings if known_sig(f) is not None]
     by_sig = collections.OrderedDict()
-    for f in sorted(findings, key=lambda f: (f.get("class", "violation") != "violation")):
+    for f in fresh:
         by_sig.setdefault(coarse(f), f)
+    picked = list(by_sig.values())[:8]
+    by_known = collections.OrderedDict()
+    for f in recorded:
+        by_known.setdefault(known_sig(f), f)
+    picked += list(by_known.values())          # one witness per recorded finding, re-confirmed like everything else
     by_case = collections.OrderedDict()
-    for f in list(by_sig.values())[:8]:
+    for f in picked:
         by_case.setdefault(f["id"], []).append(f)
     extra13 = ["--alt=false", "--repeat", "2", "--orders", ORDERS]
-    for cid, fs in list(by_case.items())[:6]:
+    for cid, fs in list(by_case.items())[:10]:
+        if violations:
+            break
         again, casefile = confirm(prop, cid, d, extra13 if prop == "C13" else [])
         if not again:
             if prop == "C13":
